@@ -826,17 +826,37 @@ where
                     return Err("skip".into());
                 }
                 let res: Result<(usize, usize, usize, bool), String> = self.core.mref.with_manager_shared(|m| {
-                    let x = |v: VarNo| oom(F::var(m, v));
-                    let (x0, x1, x2, x3) = (x(0)?, x(1)?, x(2)?, x(3)?);
-                    let mut base: Vec<F> = vec![F::f(m), F::t(m), x1.clone(), x2.clone(), x3.clone()];
-                    for (a, b) in [(&x1, &x2), (&x2, &x3), (&x1, &x3)] {
-                        base.push(oom(a.and(b))?);
-                        base.push(oom(a.or(b))?);
-                        base.push(oom(a.xor(b))?);
-                    }
-                    for v in [&x1, &x2, &x3] {
-                        base.push(oom(v.not())?);
-                    }
+                    // the operands of the probe (about 16 nodes); an out-of-memory here (retried like the
+                    // probe's own allocations, see below) already is the probe's out-of-memory point: the
+                    // store must then be completely full as well
+                    let prep = || -> Result<(F, Vec<F>), String> {
+                        let x = |v: VarNo| oom(F::var(m, v));
+                        let (x0, x1, x2, x3) = (x(0)?, x(1)?, x(2)?, x(3)?);
+                        let mut base: Vec<F> = vec![F::f(m), F::t(m), x1.clone(), x2.clone(), x3.clone()];
+                        for (a, b) in [(&x1, &x2), (&x2, &x3), (&x1, &x3)] {
+                            base.push(oom(a.and(b))?);
+                            base.push(oom(a.or(b))?);
+                            base.push(oom(a.xor(b))?);
+                        }
+                        for v in [&x1, &x2, &x3] {
+                            base.push(oom(v.not())?);
+                        }
+                        Ok((x0, base))
+                    };
+                    let mut tries = 0;
+                    let (x0, base) = loop {
+                        match prep() {
+                            Ok(r) => break r,
+                            Err(_) if tries < 40 => {
+                                tries += 1;
+                                std::thread::sleep(Duration::from_millis(3));
+                            }
+                            Err(_) => {
+                                let n = m.num_inner_nodes();
+                                return Ok((n, 0, n, true));
+                            }
+                        }
+                    };
                     let before = m.num_inner_nodes();
                     let mut keep: Vec<F> = Vec::new();
                     let mut hit = false;
@@ -1016,6 +1036,24 @@ where
 }
 
 fn run_bool<F: BoolExt>(case: &Case, mref: F::ManagerRef, out: &mut dyn FnMut(String))
+where
+    for<'id> F::Manager<'id>: Manager + oxidd::HasWorkers,
+    for<'id> <F::Manager<'id> as Manager>::InnerNode: HasLevel,
+    F::ManagerRef: Send,
+{
+    // nested=1: the whole case runs inside a session of ANOTHER manager.  The index-based manager keeps
+    // per-thread store state (free-slot list, node-count delta) for one store only: inside the foreign
+    // session this thread has no local state for the case's manager and takes the shared allocation and
+    // release paths.
+    if case.param("nested") == Some("1") {
+        let other = oxidd::bdd::new_manager(64, 16, 1);
+        other.with_manager_shared(|_| run_bool_inner::<F>(case, mref, out));
+    } else {
+        run_bool_inner::<F>(case, mref, out)
+    }
+}
+
+fn run_bool_inner<F: BoolExt>(case: &Case, mref: F::ManagerRef, out: &mut dyn FnMut(String))
 where
     for<'id> F::Manager<'id>: Manager + oxidd::HasWorkers,
     for<'id> <F::Manager<'id> as Manager>::InnerNode: HasLevel,
